@@ -101,6 +101,24 @@ def run(tier):
             cases.append(dict(w, writes=[{"k": k, "v": vt[k % 2], "fault": ""} for k in (1, 3, 5, 7)], readers=sstrun.reader_cfgs(rng), probes=probes,
                               ranges=[[0, 8], [3, 5], [4, 8], [5, 5]], keylen={"3": L}))
         batches.append(("window-%d" % si, concrete.key_family("be4", NR, rng), concrete.value_family(concrete.VALUE_FAMILIES[0], vt, rng), cases))
+    # long, compressible keys in the MIDDLE of a table under a COMPRESSED index: the stored index record is far shorter than the entry it holds
+    cases, vt = [], ["vA", "vB"]
+    for icomp in (1, 2, 3):
+        for L in (4100, 4500, 6000, 9000, 20000):
+            w = dict(sstrun.writer_cfg(rng), dcomp=rng.choice([0, 2]), icomp=icomp, writer="stream")
+            cases.append(dict(w, writes=[{"k": k, "v": vt[k % 2], "fault": ""} for k in (1, 3, 4, 5, 7)], readers=sstrun.reader_cfgs(rng), probes=probes,
+                              ranges=[[0, 8], [3, 5], [4, 8], [5, 5]], keylen={"3": L, "4": L + 7}))
+    batches.append(("longmid-compressed-index", concrete.key_family("be4", NR, rng), concrete.value_family(concrete.VALUE_FAMILIES[0], vt, rng), cases))
+    # ... and the same inside tables of several hundred keys (the index goes on for many KiB behind the long entry)
+    for icomp in ((1, 2, 3) if thorough else (2,)):
+        n = 600
+        keys = concrete.key_family("be4", n, rng)
+        vt4 = ["vA", "vB", "vC"]
+        pr = sorted(set(rng.sample(range(n), 40) + [0, 4, 5, 6, 7, 299, 300, 301, n - 1]))
+        w = dict(sstrun.writer_cfg(rng), dcomp=0, icomp=icomp, writer="stream")
+        case = dict(w, writes=[{"k": k, "v": vt4[k % 3], "fault": ""} for k in range(n)], readers=sstrun.reader_cfgs(rng), probes=pr,
+                    ranges=[[0, n - 1], [3, 40], [5, 5], [250, 400], [300, 300]], keylen={"5": 4300, "300": 6000})
+        batches.append(("longmid-big-%d" % icomp, keys, concrete.value_family(concrete.VALUE_FAMILIES[0], vt4, rng), [case]))
     total = sstrun.run_batches(o, binary, batches, "C03")
     o.evaluations = total
     o.nontrivial = len(tables) - 1 + nbig
